@@ -80,6 +80,28 @@ CHECKS["C16"] = dict(
     technique="Coq proof over translator-generated tables + model/implementation correspondence",
 )
 
+CHECKS["C05"] = dict(
+    category="proof",
+    text=("Coq state machine of the host's ASH sender/receiver with IEEE binary64 time (PrimFloat, bit-exact with the implementation's "
+          "adaptive timeout). Theorems for every event list: at most ACK_TIMEOUTS transmissions per send with fixed frame number/payload "
+          "and the retransmit flag exactly on repeats; timeout always within [MIN, MAX]; repeats only on NAK or timeout; normal return only "
+          "on a covering acknowledgement; failed link silent until RSTACK, waiting sends fail, upper layer told; one DATA frame outstanding; "
+          "consecutive numbers. Tied to the real AshProtocol on a virtual-time loop by correspondence over exhaustive reaction scripts."),
+    design_ref="DESIGN.md section 6 C05",
+    technique="Coq proof (invariants over event lists, PrimFloat model) + model/implementation correspondence in virtual time",
+    note=TB + "; Print Assumptions lists only the PrimFloat/Uint63 kernel primitives; an ACK racing the timeout in one loop iteration is not modelled",
+)
+CHECKS["C07"] = dict(
+    category="proof",
+    text=("Translator flattens every request/response schema of all 11 versions (2,957 lines of generated tables) into wire descriptors; Coq "
+          "theorems: decode(encode vs) = vs with nothing left for every decodable schema and every value tuple, header reader inverts "
+          "header writer for the three layouts, positional = keyword binding, and by vm_compute over the generated tables: unique frame ids "
+          "and names, ids within the layout's range, every response/callback schema decodable; whole-frame round trip for every version and "
+          "command. Tied to the real _ezsp_frame/__call__/zigpy serialisers by correspondence over every version x command x value tuples."),
+    design_ref="DESIGN.md section 6 C07",
+    technique="Coq proof over translator-generated command tables + model/implementation correspondence",
+)
+
 NOT_YET = {}
 
 
